@@ -105,6 +105,7 @@ STRESS = {  # large-magnitude operands at which the function is perfectly well c
 
 
 ZERO_FNS = ("prod", "cumprod", "multiply_sequence", "multiply")
+TWO_BRANCH = ("reciprocal", "cot", "csc", "arccsc", "arcsec", "arccoth", "coth", "csch", "arccot", "arccsch", "cbrt")
 # value placed at masked-out positions of a where= call: a point where the function or its derivative is not finite
 MASKED_POLES = {"log": 0.0, "log2": 0.0, "log10": 0.0, "sqrt": 0.0, "reciprocal": 0.0, "cbrt": 0.0, "log1p": -1.0, "arccosh": 1.0, "arcsin": 1.0,
                 "arccos": -1.0, "arctanh": 1.0, "divide": 0.0, "power": 0.0}
@@ -133,7 +134,8 @@ def gen_single(rng, fn, force_empty=False, k=0):
         lo, hi, signed = 0.3, 2.0, True
         if fn in B.ADAPT:
             lo, hi = B.ADAPT[fn]
-            signed = False
+            # functions whose domain has a negative branch as well (|x| beyond a bound): operands of either sign, element by element
+            signed = fn in TWO_BRANCH and k % 2 == 1
         if fn == "power":
             lo, hi, signed = 0.5, 2.5, False
         if stress:
@@ -147,6 +149,30 @@ def gen_single(rng, fn, force_empty=False, k=0):
             n = b.leaf(shp, lo=lo, hi=hi, signed=signed, constant=None if i == 0 else rng.choice([None, None, True]))
             if rng.random() < 0.3:
                 b.prog[-1]["nocopy"] = True
+        if fn == "power" and k % 6 == 2:
+            # base elements exactly 0 with constant integer exponents >= 1 (x**1 at 0 has derivative 1, x**2 and x**3 have 0): the general
+            # Power op through mg.power / np.power / ** with an array exponent
+            base_st = next(st for st in b.prog if st["k"] == "leaf")
+            arr = b.it.env[base_st["out"]]
+            flat = list(base_st["data"])
+            for j in rng.sample(range(len(flat)), min(len(flat), rng.randint(1, 2))) if flat else []:
+                flat[j] = 0.0
+            base_st["data"], base_st["layout"] = flat, "C"
+            base_st.pop("nocopy", None)
+            b.it.env[base_st["out"]] = np.array(flat, dtype=arr.dtype).reshape(arr.shape)
+            ex = np.array([rng.choice([1, 1, 2, 3]) for _ in range(max(1, arr.size))]).reshape(arr.shape if arr.size else ())
+            for st in b.prog[1:]:
+                if st["k"] == "leaf":
+                    b.it.env.pop(st["out"], None)
+            b.prog[:] = [base_st]
+            b.meta = {base_st["out"]: b.meta[base_st["out"]]}
+            out = b.call("power", [B.R(base_st["out"]), enc_arr(ex.astype(rng.choice(["int64", "float64"])))], sp=rng.choice(["mg", "np", "op"]))
+            if out is None:
+                continue
+            Lv = b.val(out)
+            seed = enc_arr(B.rand_values(rng, np.shape(Lv), 0.3, 1.5)) if np.size(Lv) else None
+            b.prog.append({"k": "backward", "tgt": out, "seed": seed})
+            return {"kind": "op", "fn": fn, "prog": b.prog, "L": out, "dtype": dtype, "cseed": rng.randrange(1 << 30)}
         if fn in ZERO_FNS and k % 3 == 1:
             # exact zeros among the factors (0, 1 or several per lane): the product is a polynomial, differentiable there, and the
             # backward pass has dedicated branches for it; signs mixed as well
